@@ -357,6 +357,11 @@ func c50Scenarios() []c50Scenario {
 		{Name: "H5-full-buffers", Subs: []c50Sub{{Cap: 1, Receiver: 1}, {Cap: 1}}, Threads: [][]c50Act{{S(1), S(2)}, {U(1)}}},
 		{Name: "H7-unsub-delivered-while-blocked", Subs: []c50Sub{{Cap: 4}, {Cap: 0, Receiver: 1}}, Threads: [][]c50Act{{S(1)}, {U(0)}}},
 		{Name: "H8-two-senders-late-sub", Subs: []c50Sub{{Cap: 0, Receiver: 2}, {Cap: 4}, {Cap: 4, Late: true}}, Threads: [][]c50Act{{S(1)}, {N(2), S(2)}, {U(1)}}},
+		// one subscriber already served, two still pending (blocked) when a pending one is unsubscribed: the removal must
+		// not disturb the served/pending partition of the case list (both orders of the pending pair)
+		{Name: "H9-served+2pending-unsub-first-pending", Subs: []c50Sub{{Cap: 4}, {Cap: 0, Receiver: 1}, {Cap: 0}}, Threads: [][]c50Act{{S(1)}, {U(2)}}},
+		{Name: "H10-served+2pending-unsub-second-pending", Subs: []c50Sub{{Cap: 4}, {Cap: 0}, {Cap: 0, Receiver: 1}}, Threads: [][]c50Act{{S(1)}, {U(1)}}},
+		{Name: "H11-2served+2pending-unsub-pending", Subs: []c50Sub{{Cap: 4}, {Cap: 4}, {Cap: 0, Receiver: 1}, {Cap: 0}}, Threads: [][]c50Act{{S(1)}, {U(3)}}},
 		{Name: "H6-unsub-twice-and-resub", Subs: []c50Sub{{Cap: 1}, {Cap: 2, Late: true}}, Threads: [][]c50Act{{S(1), S(2)}, {U(0), N(1)}, {U(0)}}},
 	}
 }
